@@ -315,6 +315,11 @@ def run(m, rep, tier):
     for _n in ('cstl_string_swap', 'cstl_wstring_swap'):
         check_swap_complete(m, _n, _sw)
 
+    # ---- T10: the NDEBUG build does what the assertion build does ---------------------------------
+    from .util import check_assert_effects
+    _ae = rep.rule('T10', 'every store / effectful call made with assertions enabled is also made by the NDEBUG build (no work inside assert())', floor=1)
+    check_assert_effects(m, _ae, ('_string.c', '_string.h', 'string.c', 'string.h'))
+
 
 def check_terminator(m, f, pf, rule):
     """f: inlined body of a function that (un-inlined, pf) calls cstl_vector_resize"""
